@@ -77,6 +77,29 @@ def observe_animated(cls, path, override, env):
     return data.count(b"\x1b]1337;File=") / 2
 
 
+def observe_iterated(cls, path, override):
+    """Methods used for the frames of a cached ImageIterator carrying a per-call override,
+    before and after the image is resized (cached frames are rendered anew then)."""
+    from term_image.image import ImageIterator
+
+    image = cls.from_file(path, width=1, height=3)
+    out = []
+    try:
+        it = ImageIterator(image, 3, "1.1+" + {"lines": "L", "whole": "W"}[override], cached=True)
+        for i in range(6):
+            if i == 2:
+                image.set_size(width=2, height=3)
+            frame = next(it)
+            vt = VTerm(6, 8, "konsole")
+            vt.feed(frame)
+            n = len(vt.placements) + (0 if vt.placements else len(vt.images))
+            out.append("lines" if n == 3 else "whole" if n == 1 else "?%d" % n)
+        it.close()
+    finally:
+        image.close()
+    return out
+
+
 def run_history(seed, res, env, steps):
     from PIL import Image
     from term_image.exceptions import StyleError
@@ -113,7 +136,7 @@ def run_history(seed, res, env, steps):
         with open(src_file, "rb") as f:
             file_bytes = f.read()
     anim_file = None
-    if family == "iterm2":
+    if family in ("iterm2", "kitty"):
         import tempfile
 
         fd, anim_file = tempfile.mkstemp(suffix=".gif", dir="/var/tmp", prefix="vf-c20-")
@@ -300,6 +323,13 @@ def run_history(seed, res, env, steps):
                         want_pf = 3 if ov == "lines" else 1
                         if per_frame != want_pf:
                             fail("method-override", "%s: animated draw(method=%r) wrote %s image commands per frame, the override asks for %d (effective method %s)" % (nm, ov, per_frame, want_pf, eff(n, "method")))
+                            return
+                    if isinstance(n, type) and anim_file and step % 9 == 4:
+                        ov = rnd.choice(["lines", "whole"])
+                        used = observe_iterated(n, anim_file, ov)
+                        res.count("iterations with a per-call method override across a resize")
+                        if set(used) != {ov}:
+                            fail("method-override", "%s: ImageIterator(format '+%s', cached) frames were rendered with %s (the image is resized after the first pass; effective method %s)" % (nm, ov[0].upper(), used, eff(n, "method")))
                             return
                     if target is not n:
                         target.close()
